@@ -182,6 +182,9 @@ class S3Compatible(Backend, short_name='S3C'):
             f'SignedHeaders={signed_headers}, Signature={signature}'
         )
 
+        # Send exactly the Host value that was signed (HTTPX would otherwise
+        # derive a normalised one from the URL)
+        headers['host'] = self.host
         headers['x-amz-content-sha256'] = payload_digest
         headers['x-amz-date'] = x_amz_date
         headers['authorization'] = authorization_header
